@@ -86,6 +86,13 @@ Theorem multi_class_argmax : forall (Row L : Type) (lm0 : L * (list Row -> list 
           (nth i (snd (nth k' (lm0 :: ms) lm0) X) 0 < nth i (snd (nth k (lm0 :: ms) lm0) X) 0)%R).
 Proof. intros; apply mc_argmax; assumption. Qed.
 
+(** ... and for every comparison on probabilities a multi-class wrapper of row functions is again a
+    row function: row x gets [mc_row], the label of the running arg-max over (label, f x) pairs. *)
+Theorem multi_class_rowwise : forall (Row L P : Type) (gtb : P -> P -> bool)
+    (fs : list (L * (Row -> P))) (X : list Row) (dflt : L),
+  mc_predict gtb dflt (mc_lift fs) X = Some (rowwise (mc_row gtb fs dflt) X).
+Proof. intros; apply mc_rowwise. Qed.
+
 (** Platt calibration over the reals: [platt_predict] never panics, returns 1/(1+exp(a x + b)),
     which lies strictly between 0 and 1 and is non-increasing (strictly decreasing) in the
     decision value a x + b - the sign convention of the code. *)
@@ -100,6 +107,19 @@ Theorem platt_monotone : forall f1 f2 : R,
   ((f1 <= f2)%R -> (platt_sig R_ops exp f2 <= platt_sig R_ops exp f1)%R)
   /\ ((f1 < f2)%R -> (platt_sig R_ops exp f2 < platt_sig R_ops exp f1)%R).
 Proof. intros; split; [apply platt_sig_antitone | apply platt_sig_strict]. Qed.
+
+(** In terms of the inner model's decision value x: non-increasing for a >= 0, non-decreasing for
+    a <= 0 (Platt fits a < 0 for a classifier whose positive class has positive decision values). *)
+Theorem platt_monotone_in_decision_value : forall a b x1 x2 : R, (x1 <= x2)%R ->
+  ((0 <= a)%R -> (platt_R x2 a b <= platt_R x1 a b)%R) /\ ((a <= 0)%R -> (platt_R x1 a b <= platt_R x2 a b)%R).
+Proof. intros; apply platt_R_monotone_in_x; assumption. Qed.
+
+(** The Platt wrapper of a row-wise inner model is row-wise, in every arithmetic. *)
+Theorem platt_rowwise : forall (F G Row : Type) (oF : NumOps F) (oG : NumOps G) (cast : F -> G) (expf : G -> G)
+    (g : Row -> F) (a b : F) (X : list Row),
+  platt_model oF oG cast expf (rowwise g) a b X
+  = rowwise (fun x => platt_predict oF oG cast expf (g x) a b) X.
+Proof. intros; apply platt_model_rowwise. Qed.
 
 (** In every arithmetic (binary32 and binary64 included) a probability that comes out of
     [platt_predict] passed [Pr::new]: it lies in [0,1] in that arithmetic's order. *)
